@@ -60,13 +60,13 @@ Print Assumptions C15_roman_domain.
 Theorem C15_dirR_roman_is_roman : forall old z, (1 <= z <= 3999)%Z -> go_roman src_tables old (dec_text z) = std_roman old z.
 Proof. exact go_roman_is_roman. Qed.
 Print Assumptions C15_dirR_roman_is_roman.
-(* (5b) ... and for EVERY integer, not only 1..3999: the Roman branch of dirR (the sign test, "4 < len || 3 < len && '3' <
-   digits[0]", the loop over the digits) and the definition agree — the numeral inside the range, no numeral outside —
-   EXACTLY when the integer is not 0; at 0 the Go code writes the empty string (finding C15-roman-zero). Inside the
-   range by (5); outside by the length and the first character of the decimal text. *)
-Theorem C15_dirR_roman_exact : forall old z, go_roman src_tables old (dec_text z) = std_roman old z <-> z <> 0%Z.
-Proof. exact go_roman_exact. Qed.
-Print Assumptions C15_dirR_roman_exact.
+(* (5b) ... and for EVERY integer, not only 1..3999: the Roman branch of dirR (the test for a sign or a lone 0, "4 < len ||
+   3 < len && '3' < digits[0]", the loop over the digits) and the definition agree — the numeral inside the range, an
+   error outside. Inside the range by (5); outside by the sign, the length and the first character of the decimal text.
+   (Until repo_fixes/C15-5 this failed at 0, where the Go code wrote the empty string: finding C15-roman-zero.) *)
+Theorem C15_dirR_roman_all_integers : forall old z, go_roman src_tables old (dec_text z) = std_roman old z.
+Proof. exact go_roman_all_integers. Qed.
+Print Assumptions C15_dirR_roman_all_integers.
 
 (* (6) English, for EVERY integer of absolute value below 10^66 (the range of the scale words), cardinal and
    ordinal: the text of the definition reads back to the integer (by induction over the groups of three digits;
@@ -205,9 +205,9 @@ Theorem C15_roman_site_coincides : forall colon c z, (1 <= z <= 3999)%Z -> arg_a
   dir_radix true src_tables colon true [] c = dir_radix false src_tables colon true [] c.
 Proof. exact roman_site_coincides. Qed.
 Print Assumptions C15_roman_site_coincides.
-(* the same for every integer but 0 (Roman) and for every integer (English, cardinal and ordinal): consequences of
-   (5b) and (6b); so ~R ~:R without parameters never leave the guard, ~@R ~:@R only at 0. *)
-Theorem C15_roman_site_coincides_all : forall colon c z, z <> 0%Z -> arg_at c = Some (VInt z) ->
+(* the same for every integer, Roman and English, cardinal and ordinal: consequences of (5b) and (6b); so ~R ~:R ~@R
+   ~:@R without parameters never leave the guard. *)
+Theorem C15_roman_site_coincides_all : forall colon c z, arg_at c = Some (VInt z) ->
   dir_radix true src_tables colon true [] c = dir_radix false src_tables colon true [] c.
 Proof. exact roman_site_coincides_all. Qed.
 Print Assumptions C15_roman_site_coincides_all.
